@@ -56,6 +56,9 @@ rand    `-` or `<seed>:<d,d,…>` raw Int63 draws of math/rand after Seed(seed)
         the answer is `ok`, the harness's oracle checks the two load-independent bounds (round trips ≤ ⌈duration /
         interval⌉ + 1 with the default interval 250 ms; the handler does not give up before the duration is over)
 
+  sc <tls 0|1> <trusted proxy 0|1> <X-Forwarded-Proto values hex,…|-> <max_age ns>
+        the attributes of the sticky cookie a cookie policy writes. answer `secure=<0|1> ss=<none|-> ma=<seconds>`
+
 answer  `<r>,<r>,… c=<counter|-> a=<availability bits|->`, r = `nil` | `<i>` | `<i>+ck<id>` | `panic:idx` | `panic:nil`;
         `err:provision` if the policy is rejected; `starved` if the draws run out; `bad-op` if malformed.
 -/
@@ -390,6 +393,13 @@ def showRp : Lr RpCfg → String
       ++ " p=" ++ (if c.passive then toString c.maxFails ++ "," ++ toString c.failDur ++ "," ++ toString c.urc else "-")
 
 def handle : List String → String
+  | ["sc", tls, trusted, xfp, ma] =>
+    match optBool tls, optBool trusted, (if xfp == "-" then some [] else (xfp.splitOn ",").mapM Hex.decode), sint max63 ma with
+    | some (some tls), some (some tr), some xfp, some ma =>
+      "secure=" ++ (if (stickyAttrs tls tr xfp ma).secure then "1" else "0")
+        ++ " ss=" ++ (if (stickyAttrs tls tr xfp ma).sameSiteNone then "none" else "-")
+        ++ " ma=" ++ toString (stickyAttrs tls tr xfp ma).maxAge
+    | _, _, _, _ => "bad-op"
   | ["tim", dms, ims] =>
     -- lb_try_duration / lb_try_interval on the real clock: checked by the harness's oracle only
     match num 2000 dms, num 2000 ims with
